@@ -31,6 +31,9 @@ structure St where
   lt : LtSt := {}
   find : FindSt := {}
   sw : SwSt := {}
+  -- the library called the application's abort handler: the objects it was working on are in an
+  -- undefined state, nothing more is asked of them until `reset`
+  poisoned : Bool := false
 
 def step (st : St) (line : String) : St × String :=
   let toks := (line.trimAscii.toString.splitOn " ").filter (· ≠ "")
@@ -76,12 +79,16 @@ partial def loop (h : IO.FS.Stream) (out : IO.FS.Stream) (st : St) : IO Unit := 
   if t.isEmpty || t.startsWith "#" then loop h out st
   else
     let toks := (line.trimAscii.toString.splitOn " ").filter (· ≠ "")
+    if st.poisoned && toks != ["reset"] then
+      out.putStrLn "poisoned"
+      loop h out st
+    else
     let (st', o) ← (do
       match ← stepTables st.tbl toks with      -- tbl.* ops read table files: the only ops doing IO
       | some (s, o) => pure ({ st with tbl := s }, o)
       | none => pure (step st line))
     out.putStrLn o
-    loop h out st'
+    loop h out (if o == "abort" || o.endsWith " abort" then { st' with poisoned := true } else st')
 
 def main : IO Unit := do
   let stdin ← IO.getStdin
